@@ -85,8 +85,22 @@ def sort_protocol(ctx, L):
             'model_sort_rotate', r.site(), 'a node is settled (known) only when none of its available dependencies is still behind it; '
             'otherwise the first such dependency is moved in front of it', rs)
     fd = m.func('topological_sort.find_first_dep')
-    L.check('for i, n in enumerate(islice(nodes, start_index, None), start_index): if n.name == dependency: return i' in ws(unparse(fd.node)),
-            'C15.sort-protocol', 'find_first_dep', fd.site(), 'dependencies are searched behind the current position, by name', '')
+    from . import shared_py as P
+    L.check(P.body_is(fd, '''
+                for i, n in enumerate(islice(nodes, start_index, None), start_index):
+                    if n.name == dependency:
+                        return i
+            ''', '''
+                for i in range(start_index, len(nodes)):
+                    if nodes[i].name == dependency:
+                        return i
+            ''', '''
+                for i, n in enumerate(nodes[start_index:], start_index):
+                    if n.name == dependency:
+                        return i
+            ''', params=['dependency', 'start_index']),
+            'C15.sort-protocol', 'find_first_dep', fd.site(), 'dependencies are searched behind the current position, by name: the '
+            'index of the first node at or after start_index whose name is the dependency (None if there is none)', P.sem_body(fd))
 
 
 def dependencies(ctx, L):
